@@ -28,4 +28,5 @@ Extraction "model.ml"
                     cl_step cl_run cm_new cm_from_storage cm_step cm_run ct_step cg_new cg_from_storage cg_step cg_run ga_step
                     cg_free_index cg_node_count cg_set_node_count cr_load cr_store cr_create
                     ce_dbvalue ce_pair ce_dbkv
-  (* StoredDb *) load_db sd_load sd_step.
+  (* StoredDb *) load_db sd_load sd_step
+  (* StoredDbOps *) so_open so_q_insert_node so_q_insert_values so_q_insert_edge.
